@@ -3,13 +3,13 @@ import LyModel.XsdRe.Render
 # The grammar of XML Schema regular expressions, declaratively (XSD dialect)
 
 XML Schema Part 2: Datatypes (2nd ed.), Appendix F.  `Derives p s`: the text `s` is a spelling of the syntax tree `p`
-according to productions [1]–[11] (regExp, branch, piece, quantifier, atom, Char, charClass) and [23]–[27], [37]
-(single-character, multi-character, category and block escapes), read with the documented choices of `Parse.lean` (`{` `}`
-are metacharacters, `\$` is accepted).  The levels of the grammar are the shapes of the tree (`Pat.isAtom`, `isPiece`,
+according to productions [1]–[11] (regExp, branch, piece, quantifier, atom, Char, charClass), [12]–[22] (character class
+expressions: groups, negation, subtraction, ranges) and [23]–[27], [37] (single-character, multi-character, category and
+block escapes), read with the documented choices of `Parse.lean` (`{` `}` are metacharacters, `\$` is accepted, a raw `-`
+in a group is a literal only as its first member or directly before the closing `]`, `^` is a literal anywhere but
+directly after `[`).  The levels of the grammar are the shapes of the tree (`Pat.isAtom`, `isPiece`,
 `isBranch`, `isRe` of `Render.lean`), so one relation serves for the four non-terminals.
 
-Character class expressions `[…]` (productions [12]–[22]) are *not* given declaratively here: `ClassLex` delegates them to
-`parseClass` ("the text `t` is what `parseClass` consumes, in some context, returning `cc`").
 -/
 namespace LyModel.XsdRe
 
@@ -56,8 +56,50 @@ inductive ClassEsc : Bool → Esc → List Char → Prop
   | block (neg : Bool) (name : String) : (Esc.block name).wf = true →
       ClassEsc neg (.block name) ((if neg then 'P' else 'p') :: '{' :: 'I' :: 's' :: (name.toList ++ ['}']))
 
-/-- lexical: `t` (the text after `[`, closing `]` included) is read by `parseClass` as the class `cc` -/
-def ClassLex (cc : CClass) (t : List Char) : Prop := ∃ f r, parseClass .xsd f (t ++ r) = .ok (cc, r)
+/-! ### character class expressions, productions [12]–[22] -/
+
+/-- [20] charOrEsc ::= XmlChar | SingleCharEsc;  [21] XmlChar: any character but `\ - [ ]` -/
+inductive CharOrEsc : Char → List Char → Prop
+  | raw (c : Char) : c ≠ '\\' → c ≠ '-' → c ≠ '[' → c ≠ ']' → CharOrEsc c [c]
+  | esc (c : Char) (t : List Char) : SingleEsc c t → CharOrEsc c ('\\' :: t)
+
+/-- one member of a group other than a raw `-`:  [17] charRange ::= seRange | XmlCharIncDash,
+    [18] seRange ::= charOrEsc '-' charOrEsc (in order),  or a [23] charClassEsc -/
+inductive Member : CItem → List Char → Prop
+  | ch (c : Char) (t : List Char) : CharOrEsc c t → Member (.ch c) t
+  | range (lo hi : Char) (s t : List Char) : CharOrEsc lo s → CharOrEsc hi t → lo ≤ hi →
+      Member (.range lo hi) (s ++ '-' :: t)
+  | esc (n : Bool) (e : Esc) (t : List Char) : ClassEsc n e t → Member (.esc n e) ('\\' :: t)
+
+inductive Members : List CItem → List Char → Prop
+  | nil : Members [] []
+  | cons (it : CItem) (l : List CItem) (s t : List Char) : Member it s → Members l t → Members (it :: l) (s ++ t)
+
+/-- an optional raw `-` as a member … -/
+def dashItems (b : Bool) : List CItem := if b then [.ch '-'] else []
+/-- … and its text -/
+def dashText (b : Bool) : List Char := if b then ['-'] else []
+
+/-- [14] posCharGroup ::= ( charRange | charClassEsc )+, where a raw `-` ([22] XmlCharIncDash) may be the first member, and
+    the last one if the group is directly followed by the closing `]` (`last`; not before the `-[` of a subtraction) -/
+inductive PosGroup (last : Bool) : List CItem → List Char → Prop
+  | mk (lead trail : Bool) (ms : List CItem) (t : List Char) : Members ms t → (trail = true → last = true) →
+      dashItems lead ++ ms ++ dashItems trail ≠ [] →
+      PosGroup last (dashItems lead ++ ms ++ dashItems trail) (dashText lead ++ t ++ dashText trail)
+
+/-- the `^` of [15] negCharGroup ::= '^' posCharGroup -/
+def hatText (neg : Bool) : List Char := if neg then ['^'] else []
+
+/-- [12] charClassExpr ::= '[' charGroup ']', the text after the `[`, closing `]` included;
+    [13] charGroup ::= posCharGroup | negCharGroup | charClassSub,
+    [16] charClassSub ::= ( posCharGroup | negCharGroup ) '-' charClassExpr.
+    A positive group does not start with `^` (a `^` directly after `[` is the negation). -/
+inductive ClassExpr : CClass → List Char → Prop
+  | single (neg : Bool) (items : List CItem) (t : List Char) : PosGroup true items t →
+      (neg = false → ∀ t', t ≠ '^' :: t') → ClassExpr [⟨neg, items⟩] (hatText neg ++ t ++ [']'])
+  | sub (neg : Bool) (items : List CItem) (t : List Char) (sub : CClass) (u : List Char) : PosGroup false items t →
+      (neg = false → ∀ t', t ≠ '^' :: t') → ClassExpr sub u →
+      ClassExpr (⟨neg, items⟩ :: sub) (hatText neg ++ t ++ '-' :: '[' :: (u ++ [']']))
 
 inductive Derives : Pat → List Char → Prop
   /-- [9] atom ::= Char -/
@@ -69,7 +111,7 @@ inductive Derives : Pat → List Char → Prop
   /-- [23] MultiCharEsc | catEsc | complEsc -/
   | esc (n : Bool) (e : Esc) (t : List Char) : ClassEsc n e t → Derives (.esc n e) ('\\' :: t)
   /-- [12] charClassExpr ::= '[' charGroup ']' -/
-  | cls (cc : CClass) (t : List Char) : ClassLex cc t → Derives (.cls cc) ('[' :: t)
+  | cls (cc : CClass) (t : List Char) : ClassExpr cc t → Derives (.cls cc) ('[' :: t)
   /-- [9] atom ::= '(' regExp ')' -/
   | group (p : Pat) (t : List Char) : p.isRe = true → Derives p t → Derives (.group p) ('(' :: (t ++ [')']))
   /-- [3] piece ::= atom quantifier -/
